@@ -18,6 +18,7 @@ import (
 	"strconv"
 	"strings"
 	"sync"
+	"sync/atomic"
 	"syscall"
 	"time"
 )
@@ -159,7 +160,7 @@ func (c *Ctx) Case(name string, fn func(t *T)) {
 		b, _ := json.Marshal(v)
 		fmt.Fprintf(c.out, "V %s\n", b)
 	}
-	fmt.Fprintf(c.out, "E %d\n", i)
+	fmt.Fprintf(c.out, "E %d %d %d\n", i, c.stats.Cases, c.stats.Evaluations)
 	c.out.Flush()
 }
 
@@ -356,6 +357,11 @@ type workerResult struct {
 
 const caseWatchdog = 300 * time.Second
 
+// afterHangWatchdog applies to all workers once one hang has been observed in this run.
+const afterHangWatchdog = 45 * time.Second
+
+var hangSeen atomic.Bool
+
 // confirmWatchdog applies when a single case is re-run alone (confirmation of a hang, replay)
 const confirmWatchdog = 150 * time.Second
 
@@ -363,6 +369,7 @@ const confirmWatchdog = 150 * time.Second
 func runWorker(p Property, cfg Config, tier string, shard, nshards int, deadline time.Time, only string) workerResult {
 	var res workerResult
 	after := -1
+	nHangs := 0
 	for attempt := 0; attempt < 200; attempt++ {
 		args := []string{"worker", "--tier", tier, "--config", cfg.Name, "--shard", fmt.Sprintf("%d/%d", shard, nshards), "--after", strconv.Itoa(after)}
 		if !deadline.IsZero() {
@@ -408,15 +415,22 @@ func runWorker(p Property, cfg Config, tier string, shard, nshards int, deadline
 					if only != "" {
 						wd = confirmWatchdog
 					}
-					if inCase && time.Since(lastStart) > wd {
+					if hangSeen.Load() && wd > afterHangWatchdog {
+						wd = afterHangWatchdog // a hang has been demonstrated already: do not pay full price for every further one
+					}
+					if inCase && !hung && time.Since(lastStart) > wd {
 						hung = true
-						cmd.Process.Signal(syscall.SIGKILL)
+						hangSeen.Store(true)
+						cmd.Process.Signal(syscall.SIGQUIT) // goroutine dump on stderr names the frame that spins
+						go func(p *os.Process) { time.Sleep(8 * time.Second); p.Signal(syscall.SIGKILL) }(cmd.Process)
 					}
 					mu.Unlock()
 				}
 			}
 		}()
 		gotR := false
+		var partCases int
+		var partEvals int64
 		sc := bufio.NewScanner(stdout)
 		sc.Buffer(make([]byte, 1<<20), 1<<28)
 		for sc.Scan() {
@@ -439,6 +453,8 @@ func runWorker(p Property, cfg Config, tier string, shard, nshards int, deadline
 				mu.Lock()
 				inCase = false
 				mu.Unlock()
+				var ei int
+				fmt.Sscanf(l[2:], "%d %d %d", &ei, &partCases, &partEvals)
 			case 'V':
 				var v Violation
 				if json.Unmarshal([]byte(l[2:]), &v) == nil {
@@ -457,8 +473,9 @@ func runWorker(p Property, cfg Config, tier string, shard, nshards int, deadline
 		if gotR && err == nil {
 			return res
 		}
-		// the worker died: attribute to the case in flight
+		// the worker died: attribute to the case in flight; keep the counts of what it had finished
 		res.crashes++
+		res.stats = append(res.stats, Stats{Cases: partCases, Evaluations: partEvals, Capped: true, CapNote: "worker died; distinct-class sets of that attempt are lost"})
 		mu.Lock()
 		ci, cn, ic := curIdx, curName, inCase
 		mu.Unlock()
@@ -477,6 +494,13 @@ func runWorker(p Property, cfg Config, tier string, shard, nshards int, deadline
 		res.viols = append(res.viols, Violation{Config: cfg.Name, Case: cn, Key: key, Detail: fmt.Sprintf("worker died (%v) while executing the case; stderr head: %s", err, firstLines(tail, 6))})
 		if only != "" {
 			return res
+		}
+		if hung {
+			nHangs++
+			if nHangs >= 6 {
+				res.stats = append(res.stats, Stats{Capped: true, CapNote: fmt.Sprintf("shard %d of %s abandoned after %d hanging cases", shard, cfg.Name, nHangs)})
+				return res
+			}
 		}
 		after = ci
 	}
@@ -811,7 +835,7 @@ func checkMain(p Property, tier string) int {
 	}
 	fmt.Printf("%s %s: cases=%d evaluations=%d distinct_nontrivial=%d states=%d transitions=%d outcomes=%d configs=%d exhaustive=%v violations=%d known=%d wall=%.1fs\n",
 		id, tier, total.Cases, total.Evaluations, len(nontrivial), total.States, total.Transitions, len(outcomes), len(cfgNames), exhaustive, nViol, nKnown, time.Since(start).Seconds())
-	if total.Evaluations == 0 {
+	if total.Evaluations == 0 && exit == 0 {
 		fmt.Fprintln(os.Stderr, "HARNESS-ERROR nothing was evaluated")
 		return 2
 	}
